@@ -14,7 +14,12 @@ for f in fixed:
     if not pats:
         print("NO-PATCH", c, prop); res.append((c, prop, "no-patch")); continue
     extra = ["--runs", str(f["revert_runs"])] if f.get("revert_runs") else []
-    cp = subprocess.run([os.path.join(ROOT, "tools", "mutant.sh"), pats[0], prop, "--tier", "quick"] + extra, capture_output=True, text=True)
+    if f.get("revert_replay"):
+        # a defect too rare for a seeded search of test size: the recorded scenario that found it is replayed
+        # against the re-broken tree instead (must reproduce there; it does not on the repaired tree)
+        cp = subprocess.run([os.path.join(ROOT, "tools", "mutant.sh"), pats[0], "replay", os.path.join(ROOT, f["revert_replay"])], capture_output=True, text=True)
+    else:
+        cp = subprocess.run([os.path.join(ROOT, "tools", "mutant.sh"), pats[0], prop, "--tier", "quick"] + extra, capture_output=True, text=True)
     hit = f"VIOLATION property={prop}" in cp.stdout
     first = next((l for l in cp.stdout.splitlines() if l.startswith("  clause=")), "")
     print(("caught " if hit else "MISSED ") + prop, c, os.path.basename(pats[0])[9:60], "|", first.strip()[:110], flush=True)
